@@ -100,7 +100,9 @@ func isoDenseConfigYAML(tree *SrcTree, scriptsDir string) string {
 	var b strings.Builder
 	b.WriteString("name: isodense\narch: amd64\nversion: \"1.2.3-rc1+git5\"\nrelease: \"2\"\nmtime: 2023-11-14T22:13:20Z\n")
 	b.WriteString("description: \"dense isolation package\\nsecond line\"\nmaintainer: \"Verif <verif@example.com>\"\nlicense: MIT\nhomepage: https://example.com\n")
-	b.WriteString("depends: [\"libc\", \"bash\"]\nprovides: [\"isodense-virtual\", \"isodense-compat\"]\nrecommends: [\"curl\"]\n")
+	// relation items that in-place "normalisation" would visibly change: version constraints with blanks, an order that
+	// is not sorted, a repeated item, upper case
+	b.WriteString("depends: [\"zlib (>= 1.2.11)\", \"libc\", \"bash (>= 4.0)\", \"libc\"]\nprovides: [\"isodense-virtual = 1.0\", \"Isodense-Compat\"]\nrecommends: [\"curl\"]\nconflicts: [\"old-iso (< 2.0)\"]\nreplaces: [\"old-iso\", \"older-iso (<= 1.0)\"]\n")
 	b.WriteString("rpm:\n  buildhost: buildhost.example\n  group: Base\n")
 	b.WriteString("deb:\n  fields:\n    Bugs: base-bugs\n    Origin: base-origin\n")
 	b.WriteString("ipk:\n  fields:\n    Custom: base-custom\n    Other: base-other\n")
@@ -169,7 +171,7 @@ func genIsoConfigYAML(r *rng.R, tree *SrcTree, scriptsDir string) string {
 			n := 1 + r.Intn(3)
 			var l []string
 			for i := 0; i < n; i++ {
-				l = append(l, fmt.Sprintf("%s-%s%d", rel[:3], rng.Pick(r, []string{"libc", "bash", "foo"}), i))
+				l = append(l, fmt.Sprintf("%s-%s%d%s", rel[:3], rng.Pick(r, []string{"zlib", "libc", "bash", "Foo"}), n-i, rng.Pick(r, []string{"", "", " (>= 1.2)", " = 2.0-1", " (< 3)"})))
 			}
 			fmt.Fprintf(&b, "%s: %s\n", rel, isoYAMLList(l))
 		}
